@@ -24,7 +24,7 @@ from common import dec, fr
 
 PROP = "C05"
 PROPS_FILES = ["Pms/Props/C05.lean"]
-GENERATORS = []
+GENERATORS = ["neigh"]
 RULE = ("seeded generator over d∈{2,3} × cell {orthogonal, triclinic} × mask {0,1}^d × style {random, jittered lattice, "
         "clustered, exact dyadic lattice (ties + boundary hits)} × n∈[2,10] × frames∈[1,3] × routine {Nnearests (N up to "
         "nparticle-1 and beyond), cutoffneighbors, cutoffneighbors_particletype (K≤3, asymmetric matrices, types may change "
@@ -42,7 +42,12 @@ TRUSTED_BASE = [
     "float64 arithmetic ≈ ℝ: validated by the correspondence under a margin guard (rint arguments, gaps between different "
     "distances from one centre and distance-vs-cutoff gaps ≥ 1e-6; exact ties are compared as groups; the inclusive "
     "boundary is judged on a dyadic stream where float arithmetic is exact), not proved",
-    "hand-written model Pms/Model/Neigh.lean tied to calculate_neighbors.py / read_neighbors.py by harness/corr/C05.py",
+    "hand-written model Pms/Model/Neigh.lean tied to calculate_neighbors.py / read_neighbors.py by harness/corr/C05.py; "
+    "its discrete constants (argpartition index, slice bounds, drop index, id offsets, cn expression, comparison operators) "
+    "are REGENERATED from calculate_neighbors.py into Pms/Gen/Neigh.lean by translator/gens/neigh.py (AST walker trusted; "
+    "it matches every statement of the per-centre loops literally and refuses anything else)",
+    "failing-input search only: for n≈1000 (where numpy's introselect no longer happens to sort small arrays) the oracle is "
+    "a float64 brute force with a 1e-7 gap guard, not the exact model",
 ]
 EPS = Fraction(1, 10 ** 6)
 logging.disable(logging.CRITICAL)   # the routines log every call
@@ -602,6 +607,52 @@ def judge_case_lists(c, D, real_lines, err):
     return judge_lists(c, D, real_lines)
 
 
+# ----------------------------------------------------------------------------- large-n search stream (float oracle)
+
+def gen_big_case(rng):
+    n = rng.choice([600, 1000])
+    L = [dec(rng, 8, 12, 2) for _ in range(3)]
+    pos = [[dec(rng, 0, float(L[k]) - 0.001, 3) for k in range(3)] for _ in range(n)]
+    return {"mode": "nn", "big": True, "d": 3, "kind": "orth", "style": "random", "H": [[L[0], "0", "0"], ["0", L[1], "0"], ["0", "0", L[2]]],
+            "ppp": ["1", "1", "1"], "n": n, "T": 1, "pos": [pos], "N": rng.randint(20, 200), "nmax_choice": ["big"]}
+
+
+def failing_big(c):
+    """Nnearests on ~1000 particles against a float64 brute force of the definition (orthogonal periodic cell);
+    a centre is judged only if the N-th and (N+1)-th distances differ by ≥ 1e-7"""
+    tmp = tempfile.mkdtemp(prefix="c05b-")
+    try:
+        text, err = real_write(c, tmp)
+    finally:
+        shutil.rmtree(tmp, ignore_errors=True)
+    if err is not None:
+        return "C05:Nnearests:raised:" + err.split(":")[0], f"Nnearests raised {err} on {c['n']} particles, N={c['N']}"
+    lines = text_lines(text)
+    P = np.array([[float(x) for x in row] for row in c["pos"][0]])
+    L = np.array([float(c["H"][k][k]) for k in range(3)])
+    n, N = c["n"], c["N"]
+    if len(lines) != n + 1:
+        return "C05:Nnearests:file-shape", f"{len(lines)} lines for {n} particles"
+    for i in range(n):
+        D = P - P[i]
+        D -= np.rint(D / L) * L
+        r = np.sqrt((D ** 2).sum(1))
+        order = np.argsort(r, kind="stable")
+        if r[order[N + 1]] - r[order[N]] < 1e-7 if N + 1 < n else False:
+            continue
+        want = [int(j) for j in order[1:N + 1]]
+        got = [int(x) - 1 for x in lines[i + 1][2:]]
+        if sorted(got) != sorted(want):
+            extra = sorted(set(got) - set(want))
+            miss = sorted(set(want) - set(got))
+            return "C05:Nnearests:membership", (f"{n} particles, N={N}, particle {i + 1}: listed id(s) {[j + 1 for j in extra]} at distance "
+                                                f"{[round(float(r[j]), 6) for j in extra]} but closer id(s) {[j + 1 for j in miss]} at "
+                                                f"{[round(float(r[j]), 6) for j in miss]} left out")
+        if any(abs(r[a] - r[b]) > 1e-9 for a, b in zip(got, want)):
+            return "C05:Nnearests:order", f"{n} particles, N={N}, particle {i + 1}: not ordered by increasing distance"
+    return None
+
+
 # ----------------------------------------------------------------------------- pipeline entry points
 
 def correspond(run):
@@ -625,6 +676,8 @@ def correspond(run):
 
 def failing(run, c):
     """does the REAL code contradict the property statement on this input?  → (key, message) or None"""
+    if c.get("big"):
+        return failing_big(c)
     dis, sf = run_cases(run, [c], count=False)
     if sf:
         return "C05:" + sf[0][1], sf[0][2]
@@ -638,7 +691,7 @@ def shrink(run, c, key):
         except common.Infra:
             return False
         return f is not None and f[0] == key
-    if c["mode"] == "file":
+    if c["mode"] == "file" or c.get("big"):
         return c
     best = c
     # fewer frames
@@ -692,6 +745,17 @@ def search(run, broken):
                 c2 = shrink(run, c, f[0])
                 f2 = failing(run, c2) or f
                 run.violation(f2[0], f2[1], {"case": c2, "broken": b["name"]})
+        if not found and b["kind"] != "correspondence":
+            # a broken theorem / translator with no small failing input: numpy's argpartition leaves small arrays
+            # sorted, so contract violations only show on large arrays — float-oracle stream
+            for _ in range(4 if run.tier == "quick" else 20):
+                c = gen_big_case(run.rng)
+                tried += 1
+                f = failing(run, c)
+                if f:
+                    found = True
+                    run.violation(f[0], f[1], {"case": c, "broken": b["name"]})
+                    break
         if not found:
             unexplained.append(b)
     run.coverage["search_cases"] = tried
